@@ -282,6 +282,17 @@ def special_d(rng, tier):
         rn = G.Renderer(G.Layout(rng, mode="plain"))
         rn.rr(rr)
         out.append(S.d("RR", bytes(rn.buf)))
+    # long variable fields (bit maps, keys, digests, values, texts of 8,192 / 8,193 / 40,000 octets of 0xff or 'a'): what
+    # an accessor or a Display implementation computes from an index or a length must not overflow
+    for ln in (8192, 8193, 40000):
+        ff = bytes([255]) * ln
+        for t, rd in ((10, ff), (11, bytes([192, 0, 2, 1, 6]) + ff), (11, bytes([192, 0, 2, 1, 17]) + bytes(ln - 1) + b"\x80"), (22, ff), (31, ff),
+                      (32, ff), (44, b"\x01\x01" + ff), (48, b"\x01\x01\x03\x08" + ff), (43, b"\x12\x34\x08\x02" + ff),
+                      (257, b"\x80\x05issue" + ff), (256, b"\x00\x01\x00\x02" + b"a" * ln), (16, (b"\xff" + b"a" * 255) * (ln // 256))):
+            out.append(S.d("RR", rr_wire(t, 1, 5, rd)))
+        out.append(S.d("RR", opt_rr(512, 0, struct.pack(">HH", 12, ln) + bytes(ln))))
+        out.append(S.d("RR", rr_wire(64, 1, 5, b"\x00\x01\x00" + struct.pack(">HH", 7, ln) + ff)))
+        out.append(S.d("RR", rr_wire(64, 1, 5, b"\x00\x01\x00" + struct.pack(">HH", 5, ln + 2) + struct.pack(">H", ln) + ff)))
     # zero-length elements followed by further elements, in every list-like place: the classic way to make a loop stop
     # advancing (empty character-strings in TXT, zero-length options / items / parameters / alpn ids, empty RDATA)
     st = lambda b: bytes([len(b)]) + b
@@ -808,6 +819,15 @@ def rdata_offset_sweep(rng, amax=16, bmax=24):
                 n1 = [b"y" * b] + base
                 n2 = [b"admin"] + n1
                 out.append(('RR', G.TYPES[tname], ('N', owner), 1, 300, ('G', mk(n1, n2))))
+        # chains that end at the owner's FIRST octet (offset 0 of a stand-alone record, offset 12 of a message):
+        # second RDATA name -> first RDATA name -> whole owner name
+        for a in (1, 2, 7):
+            for b in (1, 3, 9):
+                owner = [b"x" * a] + base
+                n1 = [b"y" * b] + owner
+                n2 = [b"admin"] + n1
+                out.append(('RR', G.TYPES[tname], ('N', owner), 1, 300, ('G', mk(n1, n2))))
+                out.append(('RR', G.TYPES[tname], ('N', owner), 1, 300, ('G', mk(owner, n1))))
     return out
 
 
@@ -1598,6 +1618,16 @@ class C15(Prop):
             d.append(S.d("RR", opt_rr(512, 0, opt(12, bytes(n)[:-1] + b"\x01" if n else b""))))
         d.append(S.d("RR", opt_rr(512, 0, opt(12, bytes(65531)))))
         d.append(S.d("RR", opt_rr(512, 0, opt(12, bytes(65530) + b"\x07"))))
+        # padding with SEVERAL non-zero octets, chosen so that they cancel under xor / sum / and: a check that folds the
+        # octets instead of looking at each one lets them through
+        vals = (0x00, 0x01, 0x02, 0x03, 0x80, 0x7f, 0xfe, 0xff)
+        for a_ in vals:
+            for b_ in vals:
+                d.append(S.d("RR", opt_rr(512, 0, opt(12, bytes([a_, b_])))))
+                d.append(S.d("RR", opt_rr(512, 0, opt(12, bytes([a_, 0, b_])))))
+        for pad in (b"\x01\x02\x03", b"\x00\xff\x00\x00\xff\x00", b"\x80\x80", b"\xff\x01", b"\x55\xaa", b"\x0f\xf0\xff",
+                    b"\x01" * 256, b"\x02" * 128, bytes(range(256)), b"\x80" * 2 + bytes(30)):
+            d.append(S.d("RR", opt_rr(512, 0, opt(12, pad))))
         for fam, size in ((1, 4), (2, 16), (0, 4), (3, 4)):
             for k in range(0, size + 2):
                 for src, scope in ((0, 0), (8 * k, 0), (0, 8 * k), (8 * k + 1, 0), (8 * size, 0), (8 * size + 1, 0), (7, 9)):
